@@ -44,11 +44,11 @@ type RRet struct {
 	V    any    `json:"v"`
 }
 
-func rOK() RRet            { return RRet{"ok", 0} }
-func rPanic() RRet         { return RRet{"panic", 0} }
-func rBool(b bool) RRet    { return RRet{"bool", b} }
-func rInt(n int) RRet      { return RRet{"int", n} }
-func rScalar(x any) RRet   { return RRet{"scalar", x} }
+func rOK() RRet          { return RRet{"ok", 0} }
+func rPanic() RRet       { return RRet{"panic", 0} }
+func rBool(b bool) RRet  { return RRet{"bool", b} }
+func rInt(n int) RRet    { return RRet{"int", n} }
+func rScalar(x any) RRet { return RRet{"scalar", x} }
 func rView(valid bool, n int) RRet {
 	return RRet{"view", map[string]any{"valid": valid, "len": n}}
 }
@@ -90,6 +90,19 @@ func navigate(m protoreflect.Message, p []RStep) (protoreflect.Message, bool) {
 	return m, true
 }
 
+// msgSize is the size a message view shows in the model (Reflect!MsgSize): populated fields plus
+// unknown bytes; 0 for an invalid message.
+func msgSize(m protoreflect.Message) int {
+	if m == nil || !m.IsValid() {
+		return 0
+	}
+	n := len(m.GetUnknown())
+	m.Range(func(protoreflect.FieldDescriptor, protoreflect.Value) bool { n++; return true })
+	return n
+}
+
+func msgView(m protoreflect.Message) RRet { return rView(m.IsValid(), msgSize(m)) }
+
 func valueRet(fd protoreflect.FieldDescriptor, v protoreflect.Value) RRet {
 	switch {
 	case fd.IsList():
@@ -97,14 +110,14 @@ func valueRet(fd protoreflect.FieldDescriptor, v protoreflect.Value) RRet {
 	case fd.IsMap():
 		return rView(v.Map().IsValid(), v.Map().Len())
 	case fd.Message() != nil:
-		return rView(v.Message().IsValid(), 0)
+		return msgView(v.Message())
 	}
 	return rScalar(proj.ScalarJSON(fd.Kind(), v))
 }
 
 func elemRet(fd protoreflect.FieldDescriptor, v protoreflect.Value) RRet {
 	if fd.Message() != nil {
-		return rView(v.Message().IsValid(), 0)
+		return msgView(v.Message())
 	}
 	return rScalar(proj.ScalarJSON(fd.Kind(), v))
 }
@@ -160,7 +173,10 @@ func getter(m protoreflect.Message, fd protoreflect.FieldDescriptor) (RRet, bool
 	case fd.IsMap():
 		return rView(out.Len() > 0, out.Len()), true
 	case fd.Message() != nil:
-		return rView(!out.IsNil(), 0), true
+		if out.IsNil() {
+			return rView(false, 0), true
+		}
+		return msgView(out.Interface().(proto.Message).ProtoReflect()), true
 	}
 	var v protoreflect.Value
 	switch fd.Kind() {
@@ -305,7 +321,7 @@ func applyOp(root protoreflect.Message, op ROp, hasGetters bool) (ret RRet) {
 		return rOK()
 	case "LAppendMutable":
 		v := list().AppendMutable()
-		return rView(v.Message().IsValid(), 0)
+		return msgView(v.Message())
 	case "LTruncate":
 		list().Truncate(op.I)
 		return rOK()
@@ -332,7 +348,7 @@ func applyOp(root protoreflect.Message, op ROp, hasGetters bool) (ret RRet) {
 		return rOK()
 	case "MMutable":
 		v := mp().Mutable(proj.ScalarValue(fd.MapKey().Kind(), op.K).MapKey())
-		return rView(v.Message().IsValid(), 0)
+		return msgView(v.Message())
 	case "MClear":
 		mp().Clear(proj.ScalarValue(fd.MapKey().Kind(), op.K).MapKey())
 		return rOK()
@@ -402,8 +418,8 @@ type reflVerdict struct {
 	P     []int  `json:"p"`
 	I     int    `json:"i"`
 	Op    ROp    `json:"op"`
-	What  string `json:"what"`  // ret | state | fast | read | getter
-	Who   string `json:"who"`   // pulsar | dynamicpb
+	What  string `json:"what"` // ret | state | fast | read | getter
+	Who   string `json:"who"`  // pulsar | dynamicpb
 	Read  *ROp   `json:"read,omitempty"`
 	Obs   any    `json:"obs"`
 	Want  any    `json:"want"`
